@@ -835,7 +835,7 @@ class Engine:
         for (q, ctrl) in body_res:
             if ctrl is not None and ctrl[0] == "raise":
                 exc = ctrl[1]
-                handled = False
+                pending = [q]
                 for h in st.handlers:
                     names = []
                     if h.type is None:
@@ -845,15 +845,28 @@ class Engine:
                     else:
                         names = [ast.unparse(h.type)]
                     if any(exc_matches(exc.exc, n) for n in names):
-                        handled = True
-                        q.ghost = dict(q.ghost)
-                        q.ghost["$exc"] = exc
+                        takers, pending = [(r, True) for r in pending], []
+                    elif exc.exc == "UserExc":
+                        # what a user callback / a user __init__ raises is of an arbitrary class (a subclass of Exception): a
+                        # handler for a specific class may or may not take it - both continuations are explored
+                        takers, rest = [], []
+                        for r in pending:
+                            for (r2, side) in self.fork(r, T.fresh("user_exception_is_" + "_".join(names)[:40], z3.BoolSort()),
+                                                        f"userexc@{h.lineno}"):
+                                (takers if side else rest).append((r2, side) if side else r2)
+                        pending = rest
+                    else:
+                        takers = []
+                    for (r, _side) in takers:
+                        r.ghost = dict(r.ghost)
+                        r.ghost["$exc"] = exc
                         if h.name:
-                            q.env[h.name] = VOpaque("exception")
-                        after.extend(self.exec_block(h.body, q))
+                            r.env[h.name] = VOpaque("exception")
+                        after.extend(self.exec_block(h.body, r))
+                    if not pending:
                         break
-                if not handled:
-                    after.append((q, ctrl))
+                for r in pending:
+                    after.append((r, ctrl))
             elif ctrl is None and st.orelse:
                 after.extend(self.exec_block(st.orelse, q))
             else:
